@@ -166,6 +166,13 @@ func runRoundScenario(seed uint64, size int, t *Trace) error {
 	if err := writeClientDir(ClientDir{Dir: dir, Key: dev, GCAPub: gca.Pub, ShortID: 1, Servers: servers, HistoryOffset: origin}); err != nil {
 		return err
 	}
+	if r.Chance(40) {
+		// leftovers of an earlier run that died while replacing a file (whatever scheme it used): they must not
+		// find their way into the real files
+		for _, f := range []string{client.GCAServerMapFile, client.GCAPubKeyFile, client.ShortIDFile} {
+			os.WriteFile(filepath.Join(dir, f+".tmp"), r.Bytes(600+r.Intn(3000)), 0644)
+		}
+	}
 	c, err := client.VerifNewClientNoLoop(dir)
 	if err != nil {
 		return err
